@@ -417,8 +417,9 @@ func (p *parser) chrAt(index int) chr { //nolint:unused
 }
 
 func (p *parser) peek() rune {
-	if p.offset+1 < p.length {
-		return rune(p.str[p.offset+1])
+	// p.offset is already the offset of the character after p.chr.
+	if p.offset < p.length {
+		return rune(p.str[p.offset])
 	}
 	return -1
 }
